@@ -205,7 +205,7 @@ def pour_arrow(pa_arr, container, index=None, name=None, splits=None):
     if container == "pa":
         return pa_arr
     if container in ("pa_chunked", "pd_arrow_chunked"):
-        bounds = [0, *(splits or []), n]
+        bounds = [0, *sorted({s for s in (splits or []) if 0 < s < n}), n]  # (splits of a longer parent case are clipped)
         ch = pa.chunked_array([pa_arr.slice(a, b - a) for a, b in zip(bounds, bounds[1:])], type=pa_arr.type)
         if container == "pa_chunked":
             return ch
@@ -239,7 +239,7 @@ def pour(base, container, index=None, name=None, splits=None):
     if container == "pa":
         return pa_arr
     if container in ("pa_chunked", "pd_arrow_chunked"):
-        bounds = [0, *(splits or []), len(base)]
+        bounds = [0, *sorted({s for s in (splits or []) if 0 < s < len(base)}), len(base)]
         chunks = [pa_arr.slice(a, b - a) for a, b in zip(bounds, bounds[1:])]
         ch = pa.chunked_array(chunks, type=pa_arr.type)
         if container == "pa_chunked":
@@ -373,7 +373,7 @@ def val_array(spec, container="np", index=None, splits=None):
             return arr
         if container == "pd_arrow":
             return pd.Series(pd.arrays.ArrowExtensionArray(arr), index=index, name=name)
-        bounds = [0, *(splits or []), len(base)]
+        bounds = [0, *sorted({s for s in (splits or []) if 0 < s < len(base)}), len(base)]
         ch = pa.chunked_array([arr.slice(a, b - a) for a, b in zip(bounds, bounds[1:])], type=arr.type)
         if container == "pa_chunked":
             return ch
